@@ -405,3 +405,28 @@ def date_ok(value, t0, t1):
         return False
     ts = dt.timestamp()
     return t0 - 2 <= ts <= t1 + 2 and value.endswith("GMT")
+
+
+def abort_storm(stack, callers, n=40, slow_us=4000, dest=None):
+    """clients that send a request and hang up at once while every actor is slow (H3 inject point): the request futures are dropped
+    while their actor messages are still queued. Returns the response of a request made afterwards on a new connection."""
+    dest = dest or e2e.IMDS
+    c = callers.caller(0, "curl", True)
+    stack.ctl("slowall %d" % slow_us)
+    try:
+        for i in range(n):
+            conn = stack.connect(audit=(0, c["pid"], 1, dest[0], dest[1]))
+            try:
+                conn.send(e2e.build_request("GET", "/metadata/instance?abort=%d" % i, [(b"Host", b"h")]))
+                time.sleep(0.004 * (i % 15))        # hang up at different points of the request's way through the actors
+            finally:
+                conn.close(rst=True)
+        time.sleep(0.3)
+    finally:
+        stack.ctl("khook off")
+    time.sleep(0.2)
+    conn = stack.connect(audit=(0, c["pid"], 1, dest[0], dest[1]))
+    try:
+        return conn.request(e2e.build_request("GET", "/metadata/instance?after-aborts=1", [(b"Host", b"h")]), b"GET", 6.0)
+    finally:
+        conn.close()
